@@ -2,6 +2,18 @@
 PY = "/venv/bin/python"
 
 REGISTRY = {
+    "C15": {
+        "modules": ["stateful"],
+        "level": "proof",
+        "level_text": "Site assertions E1-E7 at the state-function call site of StatefulAutonomous.on_iteration (run until tm exceeds start+duration, hand over at the "
+                      "expiry instant, initial_call, state_tm >= 0), contracts of next_state/done/on_enable (fresh first state and dashboard-read durations in every period), "
+                      "for arbitrary state graphs, tm sequences and in-state next_state/done actions (callback havoc under the invariant).",
+        "level_note": "Assumed: class/instance getattr/setattr (reflection) and ntcore getters as externals; tm non-decreasing within a period and < 2**32-1; durations >= 0; "
+                      "well-formed state graph; one instance at a time (state records are shared class-level objects).",
+        "design_ref": "DESIGN.md section 5 C15",
+        "replay": [PY, "native/replay_c15.py"],
+        "standins": {"quick": {"bounded: real StatefulAutonomous on random modes, dashboard-edited durations, several periods vs a reference simulator": [PY, "native/replay_c15.py"]}},
+    },
     "C19": {
         "modules": ["ext_hal", "ext_time", "control"],
         "level": "proof",
